@@ -145,14 +145,27 @@ type world struct {
 	r        *lib.Run
 	cache    *filesys.FsCache
 	ref      *rtree
-	universe []string
+	universe *universe
 	ever     map[string]bool // every path that existed in the reference tree during this sequence
 	nid      int
 	selfSub  bool // a move into the mover's own subtree has happened: mismatches are only recorded
 	gens     int
 }
 
-func newWorld(r *lib.Run, universe []string) *world {
+type universe struct {
+	paths []string
+	set   map[string]bool
+}
+
+func newUniverse(paths []string) *universe {
+	u := &universe{paths: paths, set: map[string]bool{}}
+	for _, p := range paths {
+		u.set[p] = true
+	}
+	return u
+}
+
+func newWorld(r *lib.Run, universe *universe) *world {
 	return &world{r: r, cache: filesys.VerifNewFsCache(nil), ref: &rtree{root: &rnode{}}, universe: universe, ever: map[string]bool{}}
 }
 
@@ -231,33 +244,16 @@ func (w *world) compare() (bad []string, n int) {
 			bad = append(bad, fmt.Sprintf("%s: cache=%s reference=%s", p, desc(got), desc(want)))
 		}
 	}
-	for _, p := range w.universe {
+	for _, p := range w.universe.paths {
 		check(p)
 	}
 	for p := range w.ever {
-		if !inUniverse(p, w.universe) {
+		if !w.universe.set[p] {
 			check(p)
 		}
 	}
 	sort.Strings(bad)
 	return
-}
-
-var uniSet map[string]bool
-var uniMu sync.Mutex
-
-func inUniverse(p string, u []string) bool {
-	uniMu.Lock()
-	defer uniMu.Unlock()
-	if uniSet == nil {
-		uniSet = map[string]bool{}
-	}
-	if len(uniSet) < len(u) {
-		for _, x := range u {
-			uniSet[x] = true
-		}
-	}
-	return uniSet[p]
 }
 
 func desc(n fs.Node) string {
@@ -281,7 +277,7 @@ func classify(ops []op) string {
 
 // runSeq executes ops; when checkAll is false only the state after the last op is
 // compared (every proper prefix is a sequence of its own in the exhaustive part).
-func runSeq(r *lib.Run, universe []string, ops []op, checkAll bool, mode string) (w *world) {
+func runSeq(r *lib.Run, universe *universe, ops []op, checkAll bool, mode string) (w *world) {
 	w = newWorld(r, universe)
 	defer func() {
 		if e := recover(); e != nil {
@@ -359,7 +355,7 @@ func alphabet(paths []string, withEnsure bool) []op {
 }
 
 // exhaustive runs every sequence of exactly L ops over the alphabet, in parallel.
-func exhaustive(r *lib.Run, label string, alpha []op, universe []string, L int, workers int) {
+func exhaustive(r *lib.Run, label string, alpha []op, universe *universe, L int, workers int) {
 	total := int64(1)
 	for i := 0; i < L; i++ {
 		total *= int64(len(alpha))
@@ -375,7 +371,7 @@ func exhaustive(r *lib.Run, label string, alpha []op, universe []string, L int, 
 		go func(lo, hi int64) {
 			defer wg.Done()
 			ops := make([]op, L)
-			var nontriv, seqs, moved int64
+			var nontriv, seqs int64
 			for idx := lo; idx < hi; idx++ {
 				x := idx
 				hasInsert, hasMove := false, false
@@ -398,9 +394,6 @@ func exhaustive(r *lib.Run, label string, alpha []op, universe []string, L int, 
 					if nontriv%4099 == 1 {
 						r.Nontrivial(fmt.Sprintf("%s/%d/%d", label, L, idx))
 					}
-				}
-				if hasMove {
-					moved++
 				}
 				if r.Violations() > 20 {
 					break
@@ -519,6 +512,7 @@ func main() {
 	uni3 := genPaths([]string{"a", "b", "c"}, 3) // 39 paths
 	uniAB3 := genPaths([]string{"a", "b"}, 3)    // 14 paths
 	uniAB3 = append(uniAB3, "/")
+	uSmall, uFull := newUniverse(uniAB3), newUniverse(append(append([]string{}, uni3...), "/"))
 
 	if r.Replay != "" {
 		var d struct {
@@ -526,7 +520,7 @@ func main() {
 			Mode string `json:"mode"`
 		}
 		r.Must(r.LoadReplay(&d), "load replay")
-		runSeq(r, append(uni3, "/"), d.Ops, true, d.Mode)
+		runSeq(r, uFull, d.Ops, true, d.Mode)
 		r.Nontrivial("replay")
 		r.Nontrivial("replay2")
 		r.Finish(0)
@@ -543,16 +537,15 @@ func main() {
 
 	maxS, maxM := r.Pick(4, 5), r.Pick(3, 4)
 	for L := 1; L <= maxM; L++ {
-		exhaustive(r, "M", alphaM, uniAB3, L, workers)
+		exhaustive(r, "M", alphaM, uSmall, L, workers)
 	}
 	for L := maxM + 1; L <= maxS; L++ { // shorter S-sequences are contained in the M enumeration
-		exhaustive(r, "S", alphaS, uniAB3, L, workers)
+		exhaustive(r, "S", alphaS, uSmall, L, workers)
 	}
 	r.Note("bounded_exhaustive", fmt.Sprintf("all sequences of <=%d ops over alphabet M (54 ops) and of %d..%d ops over alphabet S (28 ops)", maxM, maxM+1, maxS))
 	r.Sample(map[string]interface{}{"exhaustive_example": []string{alphaM[0].String(), alphaM[len(alphaM)-3].String(), alphaM[13].String()}})
 
 	// random long sequences
-	uni := append(append([]string{}, uni3...), "/")
 	nSeq, nOps := r.Pick(1000, 20000), 50
 	rng := r.SubRng("c39-random")
 	for i := 0; i < nSeq && r.Violations() <= 20; i++ {
@@ -565,7 +558,7 @@ func main() {
 		if i%64 == 0 {
 			r.Case(map[string]interface{}{"mode": mode, "ops": ops})
 		}
-		w := runSeq(r, uni, ops, true, mode)
+		w := runSeq(r, uFull, ops, true, mode)
 		r.Count("random_sequences_"+mode, 1)
 		if w != nil && w.gens > 0 {
 			r.Count("ensure_generator_calls", int64(w.gens))
